@@ -31,11 +31,13 @@ EXPLANATION = (
     "R3 in get_variable_positions every entry written to the index map and to the backend-variable map uses one path: the argument "
     "of _get_var_idx and the argument of _relabel_var are the same value, both maps are keyed by the same value, the re-labelling uses "
     "_vectorization_labels, and the path is `<node>/<op>/<var>` with <node> the element of the get_nodes result the entry is written "
-    "for and <op>/<var> the pair that get_nodes was asked to resolve.  NOT decided: that get_nodes enumerates wildcards in declaration "
+    "for and <op>/<var> the pair that get_nodes was asked to resolve (the look-up may sit in a helper that returns the node list "
+    "together with op and var; a fresh dict bound to a local and stored under the index map counts as part of the index map).  NOT decided: that get_nodes enumerates wildcards in declaration "
     "order for every hierarchy (dict insertion order, library guarantee), the numerical values, what the backend does with the index."
 )
 RULE_TEXT = ("R1: one obligation per sink (call of get_nodes/_get_var_idx resolved through the call graph, subscript of the index "
-             "table), sources = call sites of _relabel_var (floor 9); R2: one obligation per label append + frame assembly; R3: three "
+             "table), sources = call sites of _relabel_var (every call spelt like a source/sink must have been resolved to it); R2: one "
+             "obligation per label append + frame assembly, in run() or in the helper run() delegates the assembly to; R3: three "
              "obligations per (index, backend key) entry.  Non-trivial = decided by def-use/taint, path pairing or value identity.")
 ASSUMPTIONS = [
     "Values returned by functions outside pyrates/frontend/template/circuit.py carry no backend label derived from _relabel_var "
@@ -142,6 +144,39 @@ def block_of(st: ast.stmt) -> Optional[list]:
 
 def ordered(nodes):
     return sorted(nodes, key=lambda n: (getattr(n, "lineno", 0), getattr(n, "col_offset", 0)))
+
+
+def hosts_of(ctx, h, found, skip=(), depth: int = 2):
+    """Functions that satisfy `found` - `h` itself or, when it does not, functions of the same module that `h` calls (resolved
+    through the call graph, up to `depth` levels): [(function, [(caller, call node, callee), ...])]."""
+    if found(h):
+        return [(h, [])]
+    out, seen = [], set()
+
+    def visit(fn, chain, d):
+        for c in ordered([c for c in walk_shallow(fn.node) if isinstance(c, ast.Call)]):
+            try:
+                targets, how = ctx.cg.resolve_call(fn, c)
+            except Exception:
+                continue
+            if how == "external" or str(how).startswith("unresolved") or (how == "by-name" and len(targets) != 1):
+                continue
+            for t in targets:
+                if t in skip or t is fn or getattr(t.module, "rel", None) != h.module.rel or (id(t), id(c)) in seen:
+                    continue
+                seen.add((id(t), id(c)))
+                link = chain + [(fn, c, t)]
+                if found(t):
+                    if not any(o[0] is t and o[1][0][1] is link[0][1] for o in out):
+                        out.append((t, link))
+                elif d > 1:
+                    visit(t, link, d - 1)
+    visit(h, [], depth)
+    uniq = []
+    for t, link in out:
+        if not any(u[0] is t for u in uniq):
+            uniq.append((t, link))
+    return uniq
 
 
 # --------------------------------------------------------------------------------------------
@@ -664,9 +699,21 @@ def r1_namespaces(ctx, rid):
                        {"arguments": [norm(e) for e in exprs]}, label=label)
     ctx.notes.append(f"{rid}: {n_sources} call sites of _relabel_var (sources); sinks by kind {n_by_kind}; "
                      f"functions with a tainted return: {sorted(f.qualname for f, s in summ.items() if s.flat() and f != src)}")
-    ctx.require(n_sources >= 9, f"{rid}: only {n_sources} call sites of _relabel_var found in {REL} (9 confirmed by hand)")
-    ctx.require(n_by_kind["get_nodes"] >= 12 and n_by_kind["_get_var_idx"] >= 4 and n_by_kind["index table"] >= 6,
-                f"{rid}: sinks went missing ({n_by_kind}; confirmed by hand: 12 get_nodes calls, 4 _get_var_idx calls, 6 index-table subscripts)")
+    # Vacuity guards.  Exact counts would make the rule fail when duplicated code is merged into a helper, so the guard is: every
+    # call in the module that is *spelt* like a source / sink call was resolved to the source / sink by the call graph (nothing
+    # was missed because a receiver could not be typed), and each kind still occurs a handful of times.
+    spelt = {"_relabel_var": 0, "get_nodes": 0, "_get_var_idx": 0}
+    for f in funcs:
+        for n in walk_shallow(f.node):
+            if isinstance(n, ast.Call) and call_name(n) in spelt:
+                spelt[call_name(n)] += 1
+    resolved_counts = {"_relabel_var": n_sources, "get_nodes": n_by_kind["get_nodes"], "_get_var_idx": n_by_kind["_get_var_idx"]}
+    for nm, cnt in spelt.items():
+        ctx.require(resolved_counts[nm] >= cnt, f"{rid}: {cnt} calls named {nm} in {REL} but only {resolved_counts[nm]} resolved to "
+                                               f"{CLS}.{nm} (a source/sink would be missed)")
+    ctx.require(n_sources >= 4, f"{rid}: only {n_sources} call sites of _relabel_var found in {REL} (9 on the pinned tree)")
+    ctx.require(n_by_kind["get_nodes"] >= 6 and n_by_kind["_get_var_idx"] >= 2 and n_by_kind["index table"] >= 3,
+                f"{rid}: sinks went missing ({n_by_kind}; on the pinned tree: 12 get_nodes calls, 4 _get_var_idx calls, 6 index-table subscripts)")
 
 
 # --------------------------------------------------------------------------------------------
@@ -756,12 +803,22 @@ def _append_stmt(st, list_name):
 
 
 def r2_label_data_lockstep(ctx, rid):
-    f = ctx.repo.get_func(REL, f"{CLS}.run")
+    run = ctx.repo.get_func(REL, f"{CLS}.run")
+
+    def frame_calls(fn):
+        return [c for c in walk_shallow(fn.node) if isinstance(c, ast.Call) and call_name(c) == "DataFrame"]
+    # the frame is assembled in run() itself or in a helper that run() delegates to
+    hosts = hosts_of(ctx, run, frame_calls)
+    ctx.require(len(hosts) == 1, f"{rid}: expected one function in or below CircuitTemplate.run that builds the DataFrame, found "
+                                 f"{sorted(h[0].qualname for h in hosts)}")
+    f = hosts[0][0]
     rd = ctx.rd(f)
-    frames = [c for c in walk_shallow(f.node) if isinstance(c, ast.Call) and call_name(c) == "DataFrame"]
-    ctx.require(len(frames) == 1, f"{rid}: expected one DataFrame(...) call in CircuitTemplate.run, found {len(frames)}")
+    frames = frame_calls(f)
+    ctx.require(len(frames) == 1, f"{rid}: expected one DataFrame(...) call in {f.qualname}, found {len(frames)}")
     frame = frames[0]
     kw = {k.arg: k.value for k in frame.keywords}
+    if "data" not in kw and frame.args and not isinstance(frame.args[0], ast.Starred):
+        kw["data"] = frame.args[0]
     ctx.require("columns" in kw and "data" in kw, f"{rid}: DataFrame call without data=/columns= keywords: {norm(frame)}")
     appended = {n.func.value.id for n in walk_shallow(f.node) if isinstance(n, ast.Call) and isinstance(n.func, ast.Attribute)
                 and n.func.attr == "append" and isinstance(n.func.value, ast.Name)}
@@ -876,6 +933,60 @@ def _unchain(t):
     return (t.id if isinstance(t, ast.Name) else None), list(reversed(keys))
 
 
+def _node_query(ctx, f, T: ast.Name, rid: str):
+    """The get_nodes(...) call whose result the local `T` of function `f` holds: (call, op_is, var_is, text) where op_is / var_is
+    decide whether an expression of `f` is the operator / variable name that get_nodes was asked to resolve.  The call may sit in
+    `f` (`T = self.get_nodes(n, var_identifier=(op, var))`) or in a helper that returns the node list together with op and var
+    (`T, op, var = self._helper(path)`).  None when T is something else; AnalysisError for a helper of an unrecognised form."""
+    def var_identifier(fn, call):
+        vid = {k.arg: k.value for k in call.keywords}.get("var_identifier") or (call.args[1] if len(call.args) > 1 else None)
+        vid = resolve_local(ctx, fn, vid) if vid is not None else None
+        if not (isinstance(vid, ast.Tuple) and len(vid.elts) == 2):
+            raise AnalysisError(f"{rid}: `{norm(call)}` has no (op, var) var_identifier (unrecognised form)")
+        return vid
+    tv = resolve_local(ctx, f, T)
+    if isinstance(tv, ast.Call) and call_name(tv) == "get_nodes":
+        vid = var_identifier(f, tv)
+        return (tv, lambda e: same_value(ctx, f, e, vid.elts[0]), lambda e: same_value(ctx, f, e, vid.elts[1]),
+                f"{norm(vid.elts[0])}/{norm(vid.elts[1])}")
+    if not isinstance(tv, ast.Name) or comp_generator_of(tv) is not None:
+        return None
+    defs = ctx.rd(f).defs_reaching(tv)
+    if len(defs) != 1 or not isinstance(defs[0], ast.Assign) or not isinstance(defs[0].value, ast.Call) or len(defs[0].targets) != 1:
+        return None
+    d, target = defs[0], defs[0].targets[0]
+    pos = position_in_target(target, tv.id)
+    if pos is None or any(isinstance(x, ast.Starred) for x in target.elts):
+        return None
+    targets, how = ctx.cg.resolve_call(f, d.value)
+    targets = [t for t in targets if getattr(t.module, "rel", None) == f.module.rel]
+    if str(how).startswith("unresolved") or how == "external" or not targets:
+        return None
+    if len(targets) != 1:
+        raise AnalysisError(f"{rid}: `{norm(d)}` may call {sorted(t.qualname for t in targets)} (unrecognised form)")
+    hf = targets[0]
+    rets = [n for n in walk_shallow(hf.node) if isinstance(n, ast.Return)]
+    if len(rets) != 1 or not isinstance(rets[0].value, ast.Tuple) or len(rets[0].value.elts) != len(target.elts) \
+            or any(isinstance(x, ast.Starred) for x in rets[0].value.elts):
+        raise AnalysisError(f"{rid}: {hf.qualname} does not return one tuple that matches `{norm(target)}` (unrecognised form)")
+    relts = rets[0].value.elts
+    gn = resolve_local(ctx, hf, relts[pos])
+    if not (isinstance(gn, ast.Call) and call_name(gn) == "get_nodes"):
+        return None
+    vid = var_identifier(hf, gn)
+
+    def part_is(want):
+        positions = [i for i, r in enumerate(relts) if i != pos and same_value(ctx, hf, r, want)]
+
+        def test(e):
+            if not isinstance(e, ast.Name) or comp_generator_of(e) is not None:
+                return False
+            ds = ctx.rd(f).defs_reaching(e)
+            return len(ds) == 1 and ds[0] is d and position_in_target(target, e.id) in positions
+        return test
+    return gn, part_is(vid.elts[0]), part_is(vid.elts[1]), f"{norm(vid.elts[0])}/{norm(vid.elts[1])} (in {hf.qualname})"
+
+
 def r3_same_path(ctx, rid):
     f = ctx.repo.get_func(REL, f"{CLS}.get_variable_positions")
     rd = ctx.rd(f)
@@ -884,21 +995,52 @@ def r3_same_path(ctx, rid):
                 and all(isinstance(e, ast.Name) for e in rets[0].value.elts),
                 f"{rid}: get_variable_positions no longer returns (index map, backend-variable map) as two names")
     idx_map, var_map = (e.id for e in rets[0].value.elts)
+    def empty_dict(v):
+        return (isinstance(v, ast.Dict) and not v.keys) or (isinstance(v, ast.Call) and call_name(v) == "dict" and not v.args and not v.keywords)
+
+    def stores(st):
+        """[(subscript target, value)] of an assignment statement (chained targets share the value)."""
+        if isinstance(st, ast.Assign):
+            return [(t, st.value) for t in st.targets if isinstance(t, ast.Subscript)]
+        return []
+
+    # sub-maps: `<index map>[k] = <local>` where the local is a fresh dict (`m = {}` / `<index map>[k] = m = {}`); stores into the
+    # local are stores into `<index map>[k]`
+    sub_maps: Dict[str, Tuple[ast.stmt, list]] = {}         # local name -> (its defining statement, key prefix)
+    for st in ordered(walk_shallow(f.node)):
+        for t, v in stores(st):
+            root, keys = _unchain(t)
+            if root != idx_map:
+                continue
+            names = [x for x in st.targets if isinstance(x, ast.Name)]
+            if names and empty_dict(v):
+                for x in names:
+                    sub_maps[x.id] = (st, keys)
+            elif isinstance(v, ast.Name) and comp_generator_of(v) is None:
+                defs = rd.defs_reaching(v)
+                if len(defs) == 1 and empty_dict(assigned_value(defs[0], v.id)):
+                    sub_maps[v.id] = (defs[0], keys)
     entries, var_stores = [], []
     for st in ordered(walk_shallow(f.node)):
-        if not (isinstance(st, ast.Assign) and len(st.targets) == 1 and isinstance(st.targets[0], ast.Subscript)):
-            continue
-        root, keys = _unchain(st.targets[0])
-        if root == idx_map:
-            v = st.value
-            if (isinstance(v, ast.Dict) and not v.keys) or (isinstance(v, ast.Call) and call_name(v) == "dict" and not v.args and not v.keywords):
-                continue
-            if isinstance(v, ast.Call) and call_name(v) == "_get_var_idx" and (v.args or v.keywords):
-                entries.append((st, keys, v))
-            else:
-                raise AnalysisError(f"{rid}: `{norm(st)}` writes the index map with something else than _get_var_idx(...) (unrecognised form)")
-        elif root == var_map:
-            var_stores.append((st, keys))
+        for t, v in stores(st):
+            root, keys = _unchain(t)
+            if root in sub_maps and root != idx_map:
+                base = t
+                while isinstance(base, ast.Subscript):
+                    base = base.value
+                if [id(d) for d in rd.defs_reaching(base)] != [id(sub_maps[root][0])]:
+                    raise AnalysisError(f"{rid}: `{norm(st)}` stores into `{root}`, which is not only the sub-map of `{idx_map}` here "
+                                        f"(unrecognised form)")
+                root, keys = idx_map, list(sub_maps[root][1]) + keys
+            if root == idx_map:
+                if empty_dict(v) or (isinstance(v, ast.Name) and v.id in sub_maps):
+                    continue
+                if isinstance(v, ast.Call) and call_name(v) == "_get_var_idx" and (v.args or v.keywords):
+                    entries.append((st, keys, v))
+                else:
+                    raise AnalysisError(f"{rid}: `{norm(st)}` writes the index map with something else than _get_var_idx(...) (unrecognised form)")
+            elif root == var_map:
+                var_stores.append((st, keys))
     ctx.require(entries, f"{rid}: no `{idx_map}[...] = self._get_var_idx(...)` entry found")
     used = set()
     seen: Dict[str, int] = {}
@@ -973,18 +1115,13 @@ def r3_same_path(ctx, rid):
             why = why or f"the node part `{norm(nh)}` of the path is not an element of the node list returned by get_nodes"
         gn = None
         if T is not None:
-            tv = resolve_local(ctx, f, T)
-            if isinstance(tv, ast.Call) and call_name(tv) == "get_nodes":
-                gn = tv
-            else:
+            q = _node_query(ctx, f, T, rid)
+            if q is None:
                 why = why or f"`{T.id}` is not the result of get_nodes"
-        if gn is not None and why is None:
-            vid = {k.arg: k.value for k in gn.keywords}.get("var_identifier") or (gn.args[1] if len(gn.args) > 1 else None)
-            if not (isinstance(vid, ast.Tuple) and len(vid.elts) == 2):
-                raise AnalysisError(f"{rid}: `{norm(gn)}` has no (op, var) var_identifier (unrecognised form)")
-            if not (same_value(ctx, f, oh, vid.elts[0]) and same_value(ctx, f, vh, vid.elts[1])):
-                why = (f"the path uses operator/variable `{norm(oh)}/{norm(vh)}` but the nodes were resolved for "
-                       f"`{norm(vid.elts[0])}/{norm(vid.elts[1])}`")
+            else:
+                gn, op_is, var_is, asked = q
+                if why is None and not (op_is(oh) and var_is(vh)):
+                    why = f"the path uses operator/variable `{norm(oh)}/{norm(vh)}` but the nodes were resolved for `{asked}`"
         if why is None:
             ctx.ok(rid, f, st, "the path is <node>/<op>/<var> with <node> from the resolved node list and <op>/<var> the pair get_nodes resolved",
                    {"template": tpl, "resolved_by": norm(gn)}, label=f"entry {tag}: path of the resolved node")
@@ -1065,9 +1202,9 @@ def r5_index_lists_applied(ctx, rid):
 
 
 RULES = [
-    ("C06-R1", r1_namespaces, 22),
+    ("C06-R1", r1_namespaces, 11),     # 22 on the pinned tree; merging duplicated look-ups into helpers lowers the count
     ("C06-R2", r2_label_data_lockstep, 4),
     ("C06-R3", r3_same_path, 9),
-    ("C06-R4", r4_positions_inside_backend_variable, 3),
+    ("C06-R4", r4_positions_inside_backend_variable, 2),      # one per get_variable_positions call in run() (2 today) + 1
     ("C06-R5", r5_index_lists_applied, 2),
 ]
